@@ -160,9 +160,11 @@ class Gen:
                 p = PATTERNS_CLEAN[0]
             return ('pat', p[0])
         if x < 0.52:
-            return ('const', self.pick(CONSTS_CLEAN, CONSTS_RISKY, 0.25))
+            c = self.pick(CONSTS_CLEAN, CONSTS_RISKY, 0.25)
+            return ('const', c if c or not self.wide else 'abc')      # `` has no source form; keep wide grammars expressible
         if x < 0.56:
-            return ('alert', r.randint(1, 3), self.pick(CONSTS_CLEAN, CONSTS_RISKY, 0.15))
+            c = self.pick(CONSTS_CLEAN, CONSTS_RISKY, 0.15)
+            return ('alert', r.randint(1, 3), c if c or not self.wide else 'abc')
         if x < 0.63:
             return ('meta', r.choice(META))
         if x < 0.80 and later:
@@ -243,7 +245,7 @@ class Gen:
         return self.term(depth, later)
 
     def sequence(self, depth, later):
-        n = self.rng.choice([1, 2, 3, 4, 5, 6, 8] if self.wide else [1, 1, 2, 2, 3])
+        n = self.rng.choice(([1, 2, 3, 4, 5, 6, 8] if depth <= 1 else [1, 2, 2, 3]) if self.wide else [1, 1, 2, 2, 3])
         items = [self.element(depth, later) for _ in range(n)]
         if len(items) == 1:
             return items[0]
@@ -251,7 +253,7 @@ class Gen:
 
     def expre(self, depth, later):
         if self.rng.random() < (0.35 if self.wide else 0.25):
-            n = self.rng.choice([2, 3, 4, 5] if self.wide else [2, 2, 3])
+            n = self.rng.choice(([2, 3, 4, 5] if depth <= 1 else [2, 2, 3]) if self.wide else [2, 2, 3])
             return ('choice', [self.sequence(depth, later) for _ in range(n)])
         return self.sequence(depth, later)
 
@@ -271,7 +273,7 @@ class Gen:
         for i in range(nrules - 1, -1, -1):
             later = names[i + 1:]
             self.incl_ok = i > 0      # an include must name a rule that is defined earlier in the text
-            exp = self.expre(r.choice([1, 2, 2, 3] if self.wide else [0, 1, 1, 2, 2]), later)
+            exp = self.expre(r.choice([1, 1, 2, 2] if self.wide else [0, 1, 1, 2, 2]), later)
             if i == 0 and r.random() < 0.7:
                 exp = ('seq', [self.atomize(exp), ('eof',)]) if exp[0] != 'seq' else ('seq', exp[1] + [('eof',)])
             rule = {'name': names[i], 'decorators': [], 'params': [], 'kwparams': [], 'base': None, 'exp': exp,
@@ -581,7 +583,7 @@ def sentence(e, rules, rng, depth=0, rich=False) -> str:
         r = rules.get(e[1])
         if not r or depth >= 8:
             return ''
-        return sentence(r['exp'], rules, rng, depth + 1, rich and depth < 2)
+        return sentence(r['exp'], rules, rng, depth + 1, rich and depth < 1)
     if k == 'dot':
         return rng.choice('x9+')
     if k == 'eol':
@@ -635,7 +637,9 @@ def sample_inputs(spec, rng, n=4, rich=0):
             out.append(s[:i] + s[i + 1:])
             out.append(s[:i] + rng.choice(['x', ' ', '9', '\n']) + s[i:])
     for _ in range(rich):
-        out.append(sentence(start['exp'], rules, rng, rich=True))
+        s = sentence(start['exp'], rules, rng, rich=True)
+        if len(s) <= 600:
+            out.append(s)
     seen = []
     for s in out:
         if s not in seen:
@@ -1211,7 +1215,9 @@ def atoms(spec):
     return out
 
 
-RISKY_FEATS = {'eol', 'based', 'based+params', 'param', 'kwparam', 'flag', '@nomemo', '@nostak', '@name', '@isname',
+# ('eol', 'based', 'based+params' left this set when D8c / D8d were fixed in /repo: a based rule or `$->` next to a
+# swallowed rule header is as incidental as any other leftover of D8k)
+RISKY_FEATS = {'param', 'kwparam', 'flag', '@nomemo', '@nostak', '@name', '@isname',
                'keyword', 'fail', 'tok:sq+dq', 'pat:dq+slash', 'pat:edge-space', 'pat:nl', 'pat:empty', 'pat:dot',
                'const:nl', 'const:bq', 'const:edge-space', 'const:empty', '@@namechars', '@@whitespace', '@@comments',
                '@@eol_comments', '@@ignorecase'}
@@ -1471,7 +1477,13 @@ def run_layout(chk: Check, prober: Prober):
     n = 24 if chk.quick else 120
     for it in range(n):
         prog = it % 3 == 2
-        spec = Gen(rng, risky=False, prog=prog, wide=True).grammar()
+        for _ in range(12):      # keep the compile / parse times small: at most 90 nodes
+            spec = Gen(rng, risky=False, prog=prog, wide=True).grammar()
+            if sum(1 for r in spec['rules'] for _ in walk(r['exp'])) <= 90:
+                break
+        else:
+            chk.count('layout.generator-too-big')
+            continue
         if not spec_ok(spec):
             chk.count('layout.generator-invalid')
             continue
